@@ -40,7 +40,8 @@ OBLIGATIONS = {"mode:plain": 20, "mode:zip-x.csv": 20, "mode:zip-x.zip": 20,
                "col:float": 50, "col:int": 50, "col:text": 50, "fmt:%0.5f": 20,
                "fmt:%0.2f": 10, "fmt:%0.10e": 10, "fmt:None": 10, "comments": 100,
                "comment:colon": 20, "comment:hash": 10, "comment:dashes": 3,
-               "sysinfo:on": 20, "sysinfo:off": 20, "archive:multi-member": 20, "stale-sibling": 5, "overwrite": 20}
+               "sysinfo:on": 20, "sysinfo:off": 20, "archive:multi-member": 20, "stale-sibling": 5, "overwrite": 20,
+               "same-comment-dict": 20}
 RESERVED = {"nrow", "ncol", "time_generated", "author", "source_file", "work_dir",
             "python_version", "pandas_version", "numpy_version", "python_inc",
             "python_lib", "comment", "python_environment"}
@@ -102,6 +103,27 @@ def rand_comment_value(rng, kind):
     return s.strip()
 
 
+def rand_stem(rng, it):
+    """file stems: a few fixed ones and random ones over the whole alphabet (every
+    letter and digit occurs as first and as last character)"""
+    if it % 3 == 0:
+        return ["data", "my data", "a.b", "x_1-2", "v1.2.3"][int(rng.integers(0, 5))]
+    ends = string.ascii_lowercase + string.digits + string.ascii_uppercase
+    if it % 3 == 1:
+        # endings cycle deterministically through the alphabet
+        last = ends[(it // 3) % len(ends)]
+    else:
+        last = ends[int(rng.integers(0, len(ends)))]
+    mid = string.ascii_letters + string.digits + " _-."
+    n = int(rng.integers(0, 9))
+    body = "".join(mid[int(i)] for i in rng.integers(0, len(mid), size=n))
+    first = ends[int(rng.integers(0, len(ends)))]
+    stem = (first + body + last) if n else last + last
+    while ".." in stem or "  " in stem:
+        stem = stem.replace("..", ".").replace("  ", " ")
+    return stem
+
+
 def gen_case(rng, it):
     nrow = int(rng.integers(1, 51))
     ncol = int(rng.integers(1, 9))
@@ -140,7 +162,7 @@ def gen_case(rng, it):
     fmt = ["%0.5f", "%0.5f", "%0.2f", "%0.10e", None][int(rng.integers(0, 5))]
     return {"kind": "csv", "cols": cols, "comments": comments, "mode": mode,
             "float_format": fmt, "sysinfo": bool(it % 2),
-            "stem": ["data", "my data", "a.b", "x_1-2", "v1.2.3"][int(rng.integers(0, 5))]}
+            "stem": rand_stem(rng, it)}
 
 
 def run_case(ctx, case):
@@ -219,6 +241,20 @@ def run_case(ctx, case):
                     ctx.check("write.runs", False, "write_csv|raises|archive-multi",
                               case, {"exc": repr(e), "member": oname})
         overwritten = False
+        # the dictionary object handed to the library (our own copy stays pristine);
+        # in some cases the very same object has already been used for another frame
+        cdict = dict(comments)
+        if ctx.evaluations % 4 == 1 and comments:
+            ctx.tag("same-comment-dict")
+            other = pd.DataFrame({"q": np.arange(len(df) + 3.0), "r": 1, "s": "u"})
+            with warnings.catch_warnings():
+                warnings.simplefilter("ignore")
+                if archive is None:
+                    csv.write_csv(other, wd / "another_file.csv", cdict, src,
+                                  write_sys_info=False, compress=False)
+                else:
+                    csv.write_csv(other, "a/b/another_member.csv", cdict, src,
+                                  write_sys_info=False, archive=archive)
         if archive is None and ctx.evaluations % 3 == 0:
             # an earlier version of the same file (more rows, other columns, other
             # comments) is overwritten by the write under test
@@ -233,7 +269,7 @@ def run_case(ctx, case):
         with warnings.catch_warnings():
             warnings.simplefilter("ignore")
             try:
-                csv.write_csv(df, fname, comments, src, float_format=fmt,
+                csv.write_csv(df, fname, cdict, src, float_format=fmt,
                               write_sys_info=case["sysinfo"],
                               author="verif" if ctx.evaluations % 2 else None, **kw)
             except Exception as e:
